@@ -192,3 +192,96 @@ pub fn snapshot(w: &World, node: &Node) -> Option<dht::verif::Snapshot> {
     });
     got
 }
+
+/// Run the world until `pred` holds (or `max` virtual time passed) while reading the node's adaptive request
+/// timeout through the snapshot hook at EVERY iteration of the node's loop (a snapshot request is always
+/// queued; the loop answers one per iteration, before it receives that iteration's datagram). The timeout only
+/// changes when an answer is taken off the in-flight list, once per iteration at most, so the returned
+/// timeline (virtual time of the iteration, timeout in force during it) is every value the node used.
+pub fn run_until_sampling_timeout(w: &World, node: &Node, max: u64, mut pred: impl FnMut(&World) -> bool) -> (bool, Vec<(u64, u64)>) {
+    let end = w.now() + max;
+    let mut rx = dht::verif::snapshot(&node.dht);
+    let mut line: Vec<(u64, u64)> = vec![];
+    let mut ok = false;
+    loop {
+        if pred(w) {
+            ok = true;
+            break;
+        }
+        match w.step_until(end) {
+            Step::Idle | Step::Stuck => {
+                ok = pred(w);
+                break;
+            }
+            _ => {}
+        }
+        if let Ok(s) = rx.try_recv() {
+            line.push((w.now(), s.request_timeout.as_nanos() as u64));
+            rx = dht::verif::snapshot(&node.dht);
+        }
+    }
+    (ok, line)
+}
+
+/// Requests of one node and the answers to them, as they leave (fault hook): (transaction id, destination,
+/// query name, target, time sent, time the answer reaches the node).
+#[derive(Clone, Debug)]
+pub struct Exchange {
+    pub tid: Vec<u8>,
+    pub to: SocketAddrV4,
+    pub name: String,
+    pub target: Option<[u8; 20]>,
+    pub sent: u64,
+    pub answered: Option<u64>,
+}
+pub type ExchangeLog = std::sync::Arc<std::sync::Mutex<Vec<Exchange>>>;
+pub fn log_exchanges(w: &World, who: SocketAddrV4) -> ExchangeLog {
+    let log: ExchangeLog = Default::default();
+    let l2 = log.clone();
+    w.set_fault(Some(Box::new(move |info: &SendInfo| {
+        if let Some(k) = Krpc::parse(info.bytes) {
+            let mut l = l2.lock().unwrap_or_else(|e| e.into_inner());
+            if info.from == who && k.y == b'q' {
+                l.push(Exchange { tid: k.t.clone(), to: info.to, name: k.q.clone().unwrap_or_default(), target: k.target(), sent: info.now, answered: None });
+            } else if info.to == who && k.y != b'q' {
+                if let Some(e) = l.iter_mut().rev().find(|e| e.tid == k.t && e.to == info.from && e.answered.is_none()) {
+                    e.answered = Some(info.now + info.latency);
+                }
+            }
+        }
+        None
+    })));
+    log
+}
+
+/// By the node's own clock: the request sent at `sent` was never older than the timeout in force, at any
+/// iteration of the node's loop up to and including the one that received its answer at `answered`.
+pub fn alive_until_answered(line: &[(u64, u64)], sent: u64, answered: u64) -> bool {
+    line.iter().filter(|(t, _)| *t >= sent && *t <= answered).all(|(t, timeout)| t - sent + MS < *timeout) && line.iter().any(|(t, _)| *t == answered)
+}
+
+/// A blocking (sync API) call made on a helper thread reaches the node's actor channel at some REAL time after
+/// the thread was spawned; virtual time must not run ahead of that (an idle world covers virtual minutes in
+/// real milliseconds, and the shard's threads share one CPU). Waits - in real time, the world only serving
+/// snapshot requests - until the actor knows at least `want` waiting callers / running queries, or the call has
+/// already returned, or the node is gone. False = not seen within 20 real seconds (the run is inconclusive).
+pub fn wait_until_call_registered(w: &World, node: &Node, want: impl Fn() -> usize, finished: impl Fn() -> bool) -> bool {
+    let t0 = std::time::Instant::now();
+    loop {
+        if finished() {
+            return true;
+        }
+        match snapshot(w, node) {
+            None => return true,
+            Some(s) => {
+                if s.get_senders.1 + s.put_senders.1 >= want() {
+                    return true;
+                }
+            }
+        }
+        if t0.elapsed() > std::time::Duration::from_secs(20) {
+            return false;
+        }
+        std::thread::sleep(std::time::Duration::from_micros(200));
+    }
+}
